@@ -7,6 +7,7 @@ import GraphiqModel.Proofs.CanonCheck
 import GraphiqModel.Proofs.InnerProductTotal
 import GraphiqModel.Proofs.InnerProductExec
 import GraphiqModel.Proofs.InnerProductFull
+import GraphiqModel.Proofs.InnerProductHilbert
 namespace Graphiq.C05
 open Graphiq Graphiq.PRow Graphiq.STab Graphiq.Tab
 
@@ -263,6 +264,31 @@ theorem fidelity_presentation_independent (a a' b b' : Tab) (r r' : Option Nat)
     (h : STab.innerProduct a b = .ok r) (h' : STab.innerProduct a' b' = .ok r') : r = r' :=
   innerProduct_congr a a' b b' r r' ga gb ga' gb' sa sb h h'
 
+/-! ### The Hilbert-space reading: the reported value *is* the overlap of the two states
+
+  `Hilbert.rho n T = ∏_i (1 + P_i)/2` is the density matrix of the stabilizer tableau `T` (matrices over ℂ indexed by bit
+  strings; `pauliMat` is shown in C07 to be the Kronecker product graphiq builds).  For the stabilizer half of a valid
+  Clifford tableau it is a pure state (`C07.stabilizer_state_is_pure`: `ρ² = ρ = ρ†`, `tr ρ = 1`, `ρ ≥ 0`), so
+  `tr(ρ_a ρ_b) = |⟨a|b⟩|²`.  What was cited as textbook mathematics before (Aaronson–Gottesman; Garcia–Markov–Cross) is
+  now a theorem about the model. -/
+
+/-- **The fidelity is the overlap of the two states** (every n, every pair of real commuting generating sets, every
+    destabilizer half): if `inner_product` reports the value 0 then `tr(ρ_a ρ_b) = 0`, and if it reports `2^{-e/2}` then
+    `tr(ρ_a ρ_b) = 2^{-e}` — which is the number `abs(2**(-e/2))**2` that `fidelity` returns.
+    (`Hilbert.ipVal none = 0`, `Hilbert.ipVal (some e) = (1/2)^e`.) -/
+theorem fidelity_is_state_overlap (a b : Tab) (r : Option Nat) (ga : (STab.ofTab a).Good) (gb : (STab.ofTab b).Good)
+    (h : STab.innerProduct a b = .ok r) :
+    Matrix.trace (Hilbert.rho a.n (STab.ofTab a) * Hilbert.rho a.n (STab.ofTab b)) = Hilbert.ipVal r :=
+  Hilbert.innerProduct_trace a b r ga gb h
+
+/-- the same for valid Clifford tableaux (what the stabilizer backend holds): both density matrices are pure states -/
+theorem fidelity_is_state_overlap_of_valid (a b : Tab) (r : Option Nat) (va : a.Valid) (vb : b.Valid)
+    (h : STab.innerProduct a b = .ok r) :
+    Matrix.trace (Hilbert.rho a.n (STab.ofTab a) * Hilbert.rho a.n (STab.ofTab b)) = Hilbert.ipVal r ∧
+    Matrix.trace (Hilbert.rho a.n (STab.ofTab a)) = 1 ∧ Matrix.trace (Hilbert.rho b.n (STab.ofTab b)) = 1 :=
+  ⟨Hilbert.innerProduct_trace a b r (Hilbert.ofTab_good a va) (Hilbert.ofTab_good b vb) h,
+    Hilbert.rho_ofTab_trace a va, Hilbert.rho_ofTab_trace b vb⟩
+
 /-- **The executable specification is exact** (every n): the brute-force test `STab.orthB` (driver command `stab.overlap`,
     which the correspondence harness compares with the *real* `fidelity` on every pair with n ≤ 3) decides `Orth`, and the
     membership test behind its count `STab.commonCount` decides "this subset product of `a`'s rows lies in the group of
@@ -411,6 +437,20 @@ theorem bell_indep : (STab.ofTab bellPlusTab).Indep ∧ (STab.ofTab bellMinusTab
 
 example : ∃ r, STab.innerProduct bellPlusTab ket00Tab = .ok r :=
   inner_product_returns _ _ (good_of_check _ (by decide)) (good_of_check _ (by decide)) bell_indep.1 bell_indep.2.2 rfl
+
+/-- the hypotheses of `fidelity_is_state_overlap_of_valid` are met by Φ⁺ and |00⟩ (valid Clifford tableaux); the theorem
+    gives `tr(ρ_{Φ⁺} ρ_{00}) = 1/2` and `tr(ρ_{Φ⁺} ρ_{Φ⁻}) = 0` -/
+example : bellPlusTab.Valid ∧ ket00Tab.Valid ∧
+    Matrix.trace (Hilbert.rho 2 (STab.ofTab bellPlusTab) * Hilbert.rho 2 (STab.ofTab ket00Tab)) = 1 / 2 ∧
+    Matrix.trace (Hilbert.rho 2 (STab.ofTab bellPlusTab) * Hilbert.rho 2 (STab.ofTab bellMinusTab)) = 0 := by
+  have v1 : bellPlusTab.Valid := (Tab.isSymplectic_iff _).1 (by decide)
+  have v2 : ket00Tab.Valid := (Tab.isSymplectic_iff _).1 (by decide)
+  have v3 : bellMinusTab.Valid := (Tab.isSymplectic_iff _).1 (by decide)
+  refine ⟨v1, v2, ?_, ?_⟩
+  · have h := (fidelity_is_state_overlap_of_valid bellPlusTab ket00Tab (some 1) v1 v2 (ok_of_check _ _ (by decide +kernel))).1
+    have e : Hilbert.ipVal (some 1) = 1 / 2 := by simp [Hilbert.ipVal]
+    rw [e] at h; exact h
+  · exact (fidelity_is_state_overlap_of_valid bellPlusTab bellMinusTab none v1 v3 (ok_of_check _ _ (by decide +kernel))).1
 
 /-- `overlap_spec_checker_exact` here evaluates to: orthogonal, two common elements with |00⟩ -/
 example : (STab.ofTab bellPlusTab).orthB (STab.ofTab bellMinusTab) = true ∧
